@@ -373,17 +373,23 @@ def run(ck):
         for name in LIT_KINDS:
             kind = M.BY_NAME[name]
             data = M.rand_fields(rng, kind)[0]
-            c = M.build(uri, kind, (data,))
             s = M.fmt(kind, (data,))
-            ck.mon("derivation-chain")
-            if S(c) != s or S(c.get_readonly()) != s or c.get_verify_cap() is not None \
-                    or not c.is_readonly() or c.is_mutable():
-                ck.violation("derivation-chain-mismatch", "LIT cap %r: readonly=%r verify=%r" %
-                             (show(s), show(S(c.get_readonly())), c.get_verify_cap()), {"cap": show(s)})
-            n = shared.create_from_cap(s)
-            if (not n.is_readonly()) or n.is_mutable() or n.get_write_uri() is not None or n.get_uri() != s \
-                    or n.get_readonly_uri() != s or n.get_verify_cap() is not None:
-                ck.violation("derived-node-claims-write-authority", "LIT node for %r misreports" % (show(s),), {"cap": show(s)})
+
+            def lit_part():
+                c = M.build(uri, kind, (data,))
+                ck.mon("derivation-chain")
+                if S(c) != s or S(c.get_readonly()) != s or c.get_verify_cap() is not None \
+                        or not c.is_readonly() or c.is_mutable():
+                    ck.violation("derivation-chain-mismatch", "LIT cap %r: readonly=%r verify=%r" %
+                                 (show(s), show(S(c.get_readonly())), c.get_verify_cap()), {"cap": show(s)})
+                n = shared.create_from_cap(s)
+                if flag(n, "is_unknown", False) or type(n).__name__ not in ("LiteralFileNode", "DirectoryNode"):
+                    ck.violation("derived-cap-wrong-kind", "node for %r is %s" % (show(s), type(n).__name__), {"cap": show(s)})
+                    return
+                if (not n.is_readonly()) or n.is_mutable() or n.get_write_uri() is not None or n.get_uri() != s \
+                        or n.get_readonly_uri() != s or n.get_verify_cap() is not None:
+                    ck.violation("derived-node-claims-write-authority", "LIT node for %r misreports" % (show(s),), {"cap": show(s)})
+            guarded("%s chain" % name, {"cap": show(s)}, lit_part)
             instances[name].append(s)
             ck.case("chain-" + name, key=("A", s))
 
